@@ -495,6 +495,72 @@ impl LruManager {
 
         self.header.mru_head = idx;
     }
+
+    /// Verification hook (cfg(kani) only, read-only): representation invariant of the
+    /// list / key map / free list triple.  Tables of at most 64 slots.
+    ///
+    /// * walking from `lru_tail` via `next` visits exactly `key_map.len()` slots and ends at
+    ///   `mru_head`; every visited node's `prev` is the previously visited slot
+    ///   (tail.prev == SENTINEL, head.next == SENTINEL);
+    /// * `key_map[node.ekey] == slot` for every visited node;
+    /// * free-list slots are in range, pairwise distinct, not on the list, unlinked and
+    ///   cleared; list slots + free slots == `entries.len()`;
+    /// * empty list <=> head == tail == SENTINEL.
+    #[cfg(kani)]
+    pub fn verif_invariants_ok(&self) -> bool {
+        let n = self.entries.len();
+        if n > 64 {
+            return false;
+        }
+        let head = self.header.mru_head;
+        let tail = self.header.lru_tail;
+        if (head == LRU_SENTINEL) != (tail == LRU_SENTINEL) {
+            return false;
+        }
+        if (tail == LRU_SENTINEL) != self.key_map.is_empty() {
+            return false;
+        }
+        let mut on_list: u64 = 0;
+        let mut visited = 0usize;
+        let mut before = LRU_SENTINEL;
+        let mut idx = tail;
+        let mut steps = 0usize;
+        while idx != LRU_SENTINEL {
+            if steps > n || (idx as usize) >= n {
+                return false;
+            }
+            steps += 1;
+            if on_list & (1u64 << idx) != 0 {
+                return false;
+            }
+            on_list |= 1u64 << idx;
+            let e = &self.entries[idx as usize];
+            if e.prev != before {
+                return false;
+            }
+            if self.key_map.get(&e.ekey) != Some(&idx) {
+                return false;
+            }
+            visited += 1;
+            before = idx;
+            idx = e.next;
+        }
+        if before != head || visited != self.key_map.len() {
+            return false;
+        }
+        let mut free: u64 = 0;
+        for &f in &self.free_list {
+            if (f as usize) >= n || (on_list | free) & (1u64 << f) != 0 {
+                return false;
+            }
+            free |= 1u64 << f;
+            let e = &self.entries[f as usize];
+            if e.prev != LRU_SENTINEL || e.next != LRU_SENTINEL || e.ekey != [0u8; 9] {
+                return false;
+            }
+        }
+        visited + self.free_list.len() == n
+    }
 }
 
 /// Statistics from a single LRU maintenance cycle.
